@@ -2,7 +2,7 @@
    Only ExtrOcamlBasic (bool, option, list, prod, unit, sumbool -> OCaml's own types);
    N, Z, positive, nat stay the extracted inductive types.  No Extract Constant. *)
 From Coq Require Extraction ExtrOcamlBasic.
-From Shred Require Import Base SrcParams Plan PlanObs Exec ExecObs Visit Fault World.
+From Shred Require Import Base SrcParams Plan PlanObs Exec ExecObs Visit Fault World SysData.
 Extraction Language OCaml.
 Extraction "extracted/model.ml"
   cap join_slack time_values tuple_arities params_source
@@ -13,4 +13,5 @@ Extraction "extracted/model.ml"
   accept_disp trace_seq group_trace ev_eqb o_once o_no_overlap o_preds_done o_tl_last o_inside must_precede subtree_tags model_layout
   visits leaf_tags
   faccept_disp ftrace_seq fgroup
-  World.step World.empty_world World.probe World.dropped World.run.
+  World.step World.empty_world World.probe World.dropped World.run
+  sd_reads sd_writes sd_setup sd_fetch drop_guards classes present_mask world_with.
